@@ -282,34 +282,21 @@ def _impl_case(item):
     """One sequence.  Returns dict(fails=[(key, what)], stats=[...], corr=[(request, kind, expected)])"""
     common.use_repo()
     import penman
-    from penman.codec import PENMANCodec
+    from penman import layout
+    from penman.tree import Tree
     tmp = item['tmp']
     texts, metas = item['texts'], item['metas']
     fails, stats, corr = [], [], []
     wm = models.wire_model(models.DEFAULT)
-    codec = PENMANCodec()
-    # ---- the graphs this sequence is made of (decoded one by one from line lists: no str splitting involved)
+    # ---- the graphs this sequence is made of: the generated (wf) trees interpreted directly -- no lexer, no
+    #      line splitting and no parser is involved in what the containers are expected to return
     expected, graphs = [], []
-    for tx, md in zip(texts, metas):
-        r = _collect(lambda: codec.iterdecode(tx.split('\n')))
-        if hung(r):
-            return {'fails': [('hang', f'iterdecode of the lines of {tx!r} does not return')], 'stats': [], 'corr': [], 'skip': True}
-        if r['end'] is not None or len(r['graphs']) != 1:
-            return {'fails': [], 'stats': ['generated-text-rejected'], 'corr': [], 'skip': True}
-        g = r['graphs'][0]
-        if list(g.metadata.items()) != [tuple(kv) for kv in md]:
-            fails.append(('metadata-attach', f'a single graph text {tx!r} reads back metadata {list(g.metadata.items())!r}, '
-                          f'generated {md!r}'))
+    for node, md in zip(item['nodes'], metas):
+        g = layout.interpret(Tree(_node_of(node), dict((k, v) for k, v in md)))
         graphs.append(g)
         expected.append(cg(g))
-    seps = item['seps']
-    sweep_cs = None
-    for sep in seps:
-        T = sep.join(texts) + item['trail']
-        label = f'separator {sep!r}'
-        cs = check_text(T, expected, tmp, fails, label)
-        if sep == item['sep']:
-            sweep_cs = (T, cs)
+    for sep in item['seps']:
+        check_text(sep.join(texts) + item['trail'], expected, tmp, fails, f'separator {sep!r}')
     # ---- malformed variant of the chosen text: containers must still agree (graphs before the error, error kind)
     T0 = item['sep'].join(texts) + item['trail']
     if item['mut'] is not None:
@@ -322,17 +309,17 @@ def _impl_case(item):
         corr_T = Tm
     else:
         corr_T = T0
-    # ---- linebreak: values holding non-ASCII / C0 separators stay one value, str == file
+    # ---- linebreak: in str input only LF / CRLF / CR end a line -- the str and its explicit LF-split line list agree
+    #      (a value holding U+2028, U+0085, VT, FF, FS, GS, RS stays ONE value)
     if any(c in T0 for c in BREAKS):
         stats.append('text-with-unicode-linebreak')
         r = _canon(_call(lambda: penman.loads(T0)))
-        if hung(r):
+        ls = _canon(_collect(lambda: penman.iterdecode(T0.split('\n'))))
+        if hung(r) or hung(ls):
             fails.append(('hang', f'loads({T0!r}) does not return'))
-        elif r['end'] is not None:
-            fails.append(('linebreak', f'loads of a text with U+2028/U+0085/VT/FF/FS..RS inside raises {r["end"]}'))
-        elif [g['metadata'] for g in r['graphs']] != [g['metadata'] for g in expected]:
-            fails.append(('linebreak', f'metadata values split or lost in str input: {[g["metadata"] for g in r["graphs"]]} '
-                          f'vs generated {[g["metadata"] for g in expected]}'))
+        elif not same(r, ls):
+            fails.append(('linebreak', f'loads(T) = {_short(r)} but the LF-split lines of T give {_short(ls)}: a character '
+                          f'other than LF / CR ended a line; T = {T0!r}'))
     # ---- dumps / loads / dump / load
     for ind, cmp in item['dump_options']:
         lab = f'indent={ind}, compact={cmp}'
@@ -443,6 +430,12 @@ def _impl_case(item):
             'ngraphs': len(graphs), 'ntriples': sum(len(g.triples) for g in graphs)}
 
 
+def _node_of(x):
+    """JSON form (lists) or tuples -> penman node (tuples)."""
+    var, bs = x
+    return (var, [(r, _node_of(t) if isinstance(t, (list, tuple)) else t) for r, t in bs])
+
+
 def e_ind(i):
     return [] if i is None else [i]
 
@@ -485,14 +478,25 @@ def norm_impl(x):
 
 # -----------------------------------------------------------------------------------------
 
-def make_item(rng, tmp, idx, quick):
+def tree_pool(chk, rng, n):
+    """n candidate trees, kept when the model's wf_tree holds (the domain guard of C01, so that
+    parse(format(t)) = t is the proved expectation the containers are measured against)."""
+    cands = [g_tree(rng) for _ in range(n)]
+    wf = common.run_driver('codec', [[4, [common.e_node(node), [[e_str(k), e_str(v)] for k, v in meta]]]
+                                     for _, node, meta in cands])
+    chk.stat('candidate-trees', len(cands))
+    chk.stat('candidate-trees-not-wf', sum(1 for w in wf if not w))
+    return [c for c, w in zip(cands, wf) if w]
+
+
+def make_item(rng, tmp, idx, pool):
     import penman
     from penman.tree import Tree
     k = rng.choice([0, 1, 1, 2, 2, 2, 3, 4])
     ind, cmp = rng.choice(OPTIONS)
     kinds, texts, metas, nodes = [], [], [], []
-    for _ in range(k):
-        kind, node, meta = g_tree(rng)
+    for _ in range(min(k, len(pool))):
+        kind, node, meta = pool.pop()
         kinds.append(kind)
         nodes.append(node)
         metas.append([list(kv) for kv in meta])
@@ -502,27 +506,29 @@ def make_item(rng, tmp, idx, quick):
         mut = (rng.random(), rng.choice(['(', ')', '"', ':', '/', '#', '~', 'x', ' ', '\n', '']), rng.choice([0, 1]))
     mixed = ''.join(rng.choice(['a', '#', ' ', '\r', '\n', '\r\n', '\n\r', '\u2028', '\x85', '\x0c'])
                     for _ in range(rng.randint(0, 12)))
-    return {'idx': idx, 'tmp': tmp, 'texts': texts, 'metas': metas, 'kinds': kinds, 'indent': ind, 'compact': cmp,
-            'seps': SEPARATORS, 'sep': rng.choice(SEPARATORS), 'trail': rng.choice(['', '', '\n', '\n\n', ' \n']),
-            'mut': mut, 'dump_options': OPTIONS if idx % 4 == 0 else [rng.choice(OPTIONS)],
+    return {'idx': idx, 'tmp': tmp, 'nodes': nodes, 'texts': texts, 'metas': metas, 'kinds': kinds, 'indent': ind,
+            'compact': cmp, 'seps': SEPARATORS, 'sep': rng.choice(SEPARATORS),
+            'trail': rng.choice(['', '', '\n', '\n\n', ' \n']), 'mut': mut,
+            'dump_options': OPTIONS if idx % 4 == 0 else [rng.choice(OPTIONS)],
             'corr': True, 'amr': idx % 6 == 0, 'mixed': mixed}
 
 
 def case_of(item):
-    return {k: item[k] for k in ('texts', 'metas', 'indent', 'compact', 'sep', 'trail', 'mut', 'dump_options', 'kinds', 'mixed')}
+    return {k: item[k] for k in ('nodes', 'texts', 'metas', 'indent', 'compact', 'sep', 'trail', 'mut', 'dump_options', 'kinds', 'mixed')}
 
 
 def run(chk):
     chk.rule = ('sequences of 0-4 graphs: trees from gen.random_tree_node(wf), the C01 robustness generator (empty node, '
-                'missing concept/target, anonymous role, alignments) and parsed grammar-directed texts, each with 0-3 '
-                'metadata keys (40% empty values; values with ; ( ) " # NBSP U+2028 U+2029 U+0085 VT FF FS GS RS, '
-                'leading blank) rendered with penman.format under indent in {None,-1,0,2} x compact, joined by '
-                'each separator in {blank line, LF, space, nothing}, with optional trailing LF; every text is read '
-                'through 22 containers (str, line lists with no / LF / CRLF / CR terminators, iterator, StringIO with '
-                'each newline mode, real files with LF / CRLF / CR terminators in text mode and with newline=""); 12% '
-                'also with one random character edit (containers must agree on the graphs before the error and the '
-                'kind of error).  A case is one sequence (distinct by its texts + options), non-trivial when it has a '
-                'graph with metadata or at least two graphs.')
+                'missing concept/target, anonymous role, alignments) and parsed grammar-directed texts, kept when the '
+                'model\'s wf_tree holds, each with 0-3 metadata keys (40% empty values; values with ; ( ) " # NBSP U+2028 '
+                'U+2029 U+0085 VT FF FS GS RS, leading blank) rendered with penman.format under indent in {None,-1,0,2} '
+                'x compact, joined by each separator in {blank line, LF, space, nothing}, with optional trailing LF; '
+                'the expected graphs are layout.interpret of the generated trees (no lexer or parser involved); every '
+                'text is read through 22 containers (str, line lists with no / LF / CRLF / CR terminators, iterator, '
+                'StringIO with each newline mode, real files with LF / CRLF / CR terminators in text mode and with '
+                'newline=""); 12% also with one random character edit (containers must agree on the graphs before the '
+                'error and the kind of error).  A case is one sequence (distinct by its texts + options), non-trivial '
+                'when it has a graph with metadata or at least two graphs.')
     chk.require_theorems('Properties.C09', THEOREMS)
     common.use_repo()
     rng = chk.rng
@@ -531,7 +537,9 @@ def run(chk):
     tmp = tempfile.mkdtemp(prefix='penman-c09-')
     try:
         for start in range(0, n, 3000):
-            items = [make_item(rng, tmp, i, quick) for i in range(start, min(n, start + 3000))]
+            m = min(n, start + 3000) - start
+            pool = tree_pool(chk, rng, 4 * m)
+            items = [make_item(rng, tmp, i, pool) for i in range(start, start + m)]
             results = common.pmap(_impl_case, items, chunk=25)
             requests, expect = [], []
             for item, res in zip(items, results):
